@@ -409,6 +409,17 @@ fn main() {
             rep.notes.push(format!("stopped at case {i}: budget"));
             break;
         }
+        // once per shard: more distinct resources than the soft cap (10 000) exist while the next ~480 cases
+        // run; resources first seen after that are flow-controlled like all others
+        if i == 15 {
+            VClock::set_ms(base);
+            for k in 0..10_050u32 {
+                if let Ok(e) = sentinel_core::EntryBuilder::new(format!("c01-flood-{}-{k}", opts.shard)).build() {
+                    e.exit();
+                }
+            }
+            rep.count("resource_flood_nodes", 10_050);
+        }
         let case = gen_case(&mut rng, base, opts.thorough());
         let span: u64 = case
             .ops
